@@ -9,6 +9,7 @@ mod xmlstrict;
 mod sess;
 
 mod c05;
+mod c07mem;
 mod c08;
 mod c09;
 mod c10;
@@ -52,6 +53,7 @@ fn main() {
         "san-selftest" => san_selftest(args.get(2).map_or("", String::as_str)),
         "c05" => c05::run(&cfg, false),
         "c18" => c05::run(&cfg, true),
+        "c07-mem" => c07mem::run(&cfg),
         "c08" => c08::run(&cfg),
         "c09" => c09::run(&cfg),
         "c10" => c10::run(&cfg),
